@@ -261,7 +261,12 @@ fn site_case(tape: &[u16], j1: MV, j2: MV) -> Case {
     let kval = typed::gen_e(&mut t, &Scope::default(), Ty::N, 1);
     defs.push(format!("k = {}", print_min(&kval)));
     sc.nums.push("k".into());
-    match t.pick(3) {
+    match t.pick(4) {
+        3 => {
+            // a name for a built-in function value
+            defs.push(format!("m = {}", ["abs", "floor", "max", "min", "round"][t.pick(5)]));
+            sc.fns.push("m".into());
+        }
         0 => {
             let v = typed::gen_e(&mut t, &sc, Ty::N, 2);
             defs.push(format!("m = {}", print_min(&v)));
@@ -276,7 +281,7 @@ fn site_case(tape: &[u16], j1: MV, j2: MV) -> Case {
             sc.fns.push("m".into());
         }
     }
-    let form = t.pick(22);
+    let form = t.pick(27);
     let mut expect: Option<String> = None;
     let mut body_scope = sc.clone();
     let mut call = "f(3)".to_string();
@@ -392,6 +397,40 @@ fn site_case(tape: &[u16], j1: MV, j2: MV) -> Case {
             defs.push("mk = z => (x => [z, x])".into());
             defs.push("f = x => (([\"a\" + \"b\", \"ab\", [1], [1]] via mk) via (g => g(x)))".into());
             expect = Some("[[\"ab\", 3], [\"ab\", 3], [[1], 3], [[1], 3]]".into());
+        }
+        22 => {
+            // a captured name that denotes a built-in function value
+            defs.push(["bi = max", "bi = min", "bi = sum"][t.pick(3)].into());
+            defs.push("f = x => [bi(x, k, 1), k]".into());
+            defs.push("hq = (bi, x) => f(x)".into());
+            call = ["hq(min, 3)", "hq(x => 0, 3)", "([3] via (bi => f(bi)))", "do {\n  bi = avg\n  return f(3)\n}"][t.pick(4)].into();
+            let b = defs[defs.len() - 3].trim_start_matches("bi = ").to_string();
+            expect = Some(if call.starts_with("([") { format!("[[{}(3, k, 1), k]]", b) } else { format!("[{}(3, k, 1), k]", b) });
+        }
+        23 => {
+            // ... received as a parameter / bound as a do-block local, used after that scope has ended
+            defs.push(["make = pick => (x => [pick(x, k), k])", "make = pick => do {\n  chosen = pick\n  return x => [chosen(x, k), k]\n}"][t.pick(2)].into());
+            defs.push(["f = make(max)", "f = make(min)"][t.pick(2)].into());
+            let b = if defs.last().unwrap().contains("max") { "max" } else { "min" };
+            expect = Some(format!("[{}(3, k), k]", b));
+        }
+        25 => {
+            // a captured name that is only read on the right-hand side of an assignment expression
+            let v = t.pick(3);
+            defs.push(["f = x => (tq = x * k) + tq", "f = x => [tq = x * k, tq][1] * 2", "f = x => do {\n  y = (tq = x * k) + 0\n  return y + tq\n}"][v].into());
+            expect = Some(["3 * k + 3 * k", "3 * k * 2", "(3 * k + 0) + 3 * k"][v].into());
+        }
+        26 => {
+            defs.push(["f = x => do {\n  return rq = x * k\n}", "f = x => (y => (rq = y * k))(x)", "f = x => if typeof([cq = k]) == \"list\" then x * cq else 0"][t.pick(3)].into());
+            expect = Some("3 * k".into());
+        }
+        24 => {
+            // ... and one nested inside a captured list / record
+            defs.push("tools = [max, {pick: min}]".into());
+            defs.push("f = x => [tools[0](x, k), tools[1].pick(x, k)]".into());
+            defs.push("hq = (tools, x) => f(x)".into());
+            call = "hq([min, {pick: max}], 3)".into();
+            expect = Some("[max(3, k), min(3, k)]".into());
         }
         _ => {
             // re-entered through a callback of map, inside a function whose parameter shadows
